@@ -71,7 +71,7 @@ func mutate(o *drv.Out, proof []*lib.Node) (string, []*lib.Node) {
 		b[r.Intn(len(b))] ^= byte(1 << uint(r.Intn(8)))
 		return b
 	}
-	switch k := r.Intn(12); k {
+	switch k := r.Intn(15); k {
 	case 0:
 		return "truncate-last", p[:len(p)-1]
 	case 1:
@@ -110,10 +110,72 @@ func mutate(o *drv.Out, proof []*lib.Node) (string, []*lib.Node) {
 		j := r.Intn(len(p))
 		extra := &lib.Node{Key: bytes.Clone(p[j].Key), Value: bytes.Clone(p[j].Value), Bitmask: p[j].Bitmask}
 		return "duplicate-node", append(p[:i], append([]*lib.Node{extra}, p[i:]...)...)
-	default:
+	case 11:
 		p[i].Value = nil
 		return "empty-value", p
+	case 12:
+		d := []int{-2, -1, 1, 2}[r.Intn(4)]
+		if resplit(p, 0, d) {
+			return fmt.Sprintf("resplit-proven%+d", d), p
+		}
+		return "resplit-none", p
+	default:
+		d := []int{-2, -1, 1, 2}[r.Intn(4)]
+		if resplit(p, i, d) {
+			return fmt.Sprintf("resplit%+d", d), p
+		}
+		return "resplit-none", p
 	}
+}
+
+// verifyAndJudge sends one statement + proof to the real VerifyProof, records the op for the model, and applies the
+// ORACLE: an accepted statement must be true of the oracle's own record of the state, an honest statement must be
+// accepted, and nothing may panic or hang.
+func verifyAndJudge(o *drv.Out, v *Verifier, lim *limiter, n int, root []byte, state map[string][]byte,
+	replay func(string) map[string]any, kind string, st statement, proof string, honestOwn bool) string {
+	req := reqLine(st.k, st.value, st.membership, root, proof)
+	res := v.Verify(fmt.Sprintf("%d %s", n, req))
+	o.Op("verify "+req, res)
+	o.Count("verify:" + kind + ":" + res)
+	o.Nontrivial(fmt.Sprintf("%d|%s", n, req))
+	tr := truth(state, st)
+	what := fmt.Sprintf("n=%d %s: key %s membership=%v value=%x → %s (statement is %v)", n, kind, st.k.Bits, st.membership, st.value, res, tr)
+	foreign := strings.HasPrefix(kind, "foreign")
+	switch {
+	case res == "panic":
+		lim.fail("C16:verifyproof-panic", what, replay("verify "+req))
+	case res == "hang":
+		lim.fail("C16:verifyproof-hang", what, replay("verify "+req))
+	case res == "died":
+		lim.fail("C16:verifyproof-killed-process", what, replay("verify "+req))
+	case res == "accept" && !tr && foreign && !st.membership:
+		lim.fail("C16:foreign-proof-accepted-as-nonmembership", what, replay("verify "+req))
+	case res == "accept" && !tr && foreign:
+		lim.fail("C16:foreign-proof-accepted-as-membership", what, replay("verify "+req))
+	case res == "accept" && !tr && !st.membership:
+		lim.fail("C16:forged-proof-accepted-as-nonmembership", what, replay("verify "+req))
+	case res == "accept" && !tr:
+		lim.fail("C16:forged-proof-accepted-as-membership", what, replay("verify "+req))
+	case honestOwn && res != "accept":
+		lim.fail("C16:honest-proof-rejected", what, replay("verify "+req))
+	}
+	return res
+}
+
+// resplit moves the key/value boundary of node i by d bytes (d > 0: the key swallows the first d value bytes;
+// d < 0: the value swallows the last -d key bytes). Parent hashes concatenate key‖value‖key‖value without length
+// prefixes, so the hash chain of a re-split proof is byte-identical to the honest one.
+func resplit(p []*lib.Node, i, d int) bool {
+	k, val := p[i].Key, p[i].Value
+	switch {
+	case d > 0 && d < len(val):
+		p[i].Key, p[i].Value = append(bytes.Clone(k), val[:d]...), bytes.Clone(val[d:])
+	case d < 0 && -d < len(k):
+		p[i].Key, p[i].Value = bytes.Clone(k[:len(k)+d]), append(bytes.Clone(k[len(k)+d:]), val...)
+	default:
+		return false
+	}
+	return true
 }
 
 // RunSMT: grain (a) — proofs from and against the real SMT at several key lengths.
@@ -218,29 +280,7 @@ func RunSMT(o *drv.Out, v *Verifier, lim *limiter) {
 				return map[string]any{"key_bits": c.n, "history": hist, "call": extra}
 			}
 			verify := func(kind string, st statement, proof string, honestOwn bool) {
-				req := reqLine(st.k, st.value, st.membership, root, proof)
-				res := v.Verify(fmt.Sprintf("%d %s", c.n, req))
-				o.Op("verify "+req, res)
-				o.Count("verify:" + kind + ":" + res)
-				o.Nontrivial(fmt.Sprintf("%d|%s", c.n, req))
-				tr := truth(state, st)
-				what := fmt.Sprintf("n=%d %s: key %s membership=%v value=%x → %s (statement is %v)", c.n, kind, st.k.Bits, st.membership, st.value, res, tr)
-				switch {
-				case res == "panic":
-					lim.fail("C16:verifyproof-panic", what, replay("verify "+req))
-				case res == "hang":
-					lim.fail("C16:verifyproof-hang", what, replay("verify "+req))
-				case res == "died":
-					lim.fail("C16:verifyproof-killed-process", what, replay("verify "+req))
-				case res == "accept" && !tr && strings.HasPrefix(kind, "foreign") && !st.membership:
-					lim.fail("C16:foreign-proof-accepted-as-nonmembership", what, replay("verify "+req))
-				case res == "accept" && !tr && strings.HasPrefix(kind, "foreign"):
-					lim.fail("C16:foreign-proof-accepted-as-membership", what, replay("verify "+req))
-				case res == "accept" && !tr:
-					lim.fail("C16:mutated-proof-accepted", what, replay("verify "+req))
-				case honestOwn && res != "accept":
-					lim.fail("C16:honest-proof-rejected", what, replay("verify "+req))
-				}
+				verifyAndJudge(o, v, lim, c.n, root, state, replay, kind, st, proof, honestOwn)
 			}
 			for pi := 0; pi < c.probes; pi++ {
 				a := pickAny()
@@ -429,6 +469,7 @@ func Run(o *drv.Out) {
 	defer v.Close()
 	lim := &limiter{o: o, seen: map[string]int{}}
 	RunWitnesses(o, v, lim)
+	RunResplitCorpus(o, v, lim)
 	RunSMT(o, v, lim)
 	RunStore(o, lim)
 	o.Extra["verify_hangs_killed"] = v.Hangs
